@@ -62,7 +62,7 @@ def run(sd, ids=None, tier="quick"):
                 out[pid] = {"rc": None, "caught": False, "with_input": False, "lines": ["no check module for " + pid], "wall": 0, "stderr": ""}
                 continue
             t0 = time.time()
-            p = sh([os.path.join(V, "harness", "check"), pid, "--tier", tier], env=dict(os.environ, VERIF_REPO=t), cwd=V, timeout=7200)
+            p = sh([os.path.join(V, "harness", "check"), pid, "--tier", tier], env=dict(os.environ, VERIF_REPO=t, VERIF_EVID=os.path.join(d, "evidence")), cwd=V, timeout=7200)
             lines = [l for l in p.stdout.split("\n") if l.startswith(("VIOLATION", "BROKEN", "KNOWN", "PASS", "FAIL"))]
             out[pid] = {"rc": p.returncode, "caught": p.returncode == 1 and any(l.startswith("VIOLATION") for l in lines),
                         "with_input": any(l.startswith("VIOLATION") and "no-failing-input-found" not in l for l in lines),
